@@ -11,10 +11,14 @@ def construct(L, ctor, args):
     ISC = L.InitialStateContainer
     if ctor in ("rep", "simp", "multi"):
         st = ISC.from_ordered_list([IS[s] for s in args["state"]])
+    desc = None
+    if ctor in ("rep", "simp") and args.get("refocus") is False:
+        from qce_circuit.library.repetition_code.circuit_components import RepetitionCodeDescription
+        desc = RepetitionCodeDescription.from_initial_state(initial_state=st, qubit_refocusing=False)
     if ctor == "rep":
-        return L.rcc.construct_repetition_code_circuit(qec_cycles=args["cycles"], initial_state=st)
+        return L.rcc.construct_repetition_code_circuit(qec_cycles=args["cycles"], initial_state=st, description=desc)
     if ctor == "simp":
-        return L.rcc.construct_repetition_code_circuit_simplified(qec_cycles=args["cycles"], initial_state=st)
+        return L.rcc.construct_repetition_code_circuit_simplified(qec_cycles=args["cycles"], initial_state=st, description=desc)
     if ctor == "multi":
         from qce_circuit.library.repetition_code.circuit_components import RepetitionCodeDescription
         desc = RepetitionCodeDescription.from_initial_state(initial_state=st)
